@@ -272,6 +272,11 @@ class GslDivLoss(BaseLoss):
         )
         tsw: NDArray[np.float64] = np.zeros(shape=(tswlen,), dtype=np.int32)
 
+        if length > 18:  # noqa: PLR2004
+            # a word of more than 18 symbols does not fit a 64-bit integer: use exact Python integers,
+            # otherwise the powers of ten turn the words into floats and distinct words collide
+            time_series = np.asarray(time_series).astype(np.int64).astype(object)
+
         for i in range(length):
             k = 10 ** (length - i - 1)
             tsw = tsw + time_series[i : tswlen + i] * k
